@@ -138,6 +138,10 @@ class C12(Case):
             return lhs < y.a
         if n.get("onp"):
             return getattr(self._pvar, "abc"[n["i"] % 3]) > 0      # the branch reads the rule's second (joined) variable
+        if n.get("bare"):
+            # the branch condition is a bare truth-valued mapping (attribute / index): true iff the value is truthy
+            f = COND_FIELDS[n["i"]]
+            return getattr(x, f) if f in ("a", "b", "c") else (x.t[0] if f == "t0" else x.t[1] if f == "t1" else x.d["k"] if f == "dk" else x.s[0])
         return cond_expr(x, n["i"])
 
     def emit_body(self, n, v, x):
@@ -244,6 +248,8 @@ class C12(Case):
                 return alg.and_(alg.same(part.ref, obj, items), alg.cmp("gt", cond_val(obj, n["i"]), 0))
             if n.get("onp"):
                 return alg.cmp("gt", getattr(part, "abc"[n["i"] % 3]), 0)
+            if n.get("bare"):
+                return alg.cmp("ne", cond_val(obj, n["i"]), 0)
             if n.get("bin"):
                 return alg.cmp("lt", cond_val(obj, n["i"]), sigma[n["i"]].a)
             return alg.cmp("gt", cond_val(obj, n["i"]), 0)
@@ -397,6 +403,23 @@ def shapes(tier, seed):
                 if B <= 3:
                     out.append(dict(tree=t, join=True, twice=True))
                     out.append(dict(tree=t, join=True, cache="off"))
+    # branches whose whole condition is a bare truth-valued attribute / index (refinements, alternatives, refined alternatives)
+    def mark_bare(tree, idxs):
+        t2 = json.loads(json.dumps(tree))
+
+        def rec(ch):
+            for n_ in ch:
+                if n_["i"] in idxs:
+                    n_["bare"] = True
+                if n_.get("exc"):
+                    rec(n_["exc"])
+        rec(t2)
+        return t2
+    for B in range(2, 5):
+        for t in all_trees(B):
+            for i in range(1, B):
+                out.append(dict(tree=mark_bare(t, [i])))
+            out.append(dict(tree=mark_bare(t, list(range(1, B)))))
     # the tail of an exception chain written as SIBLING refinements of the refined node (instead of alternatives inside the
     # first refinement's block); same meaning: each is tried when the ones before it did not fire
     def sib_variants(tree):
